@@ -510,12 +510,32 @@ T_DetCmp ==
   /\ mode' = "idle" /\ k' = <<>>
   /\ UNCHANGED <<vars, prog, run, divs, flags, vtag>>
 
+\* C14 at function level: every stdlib call of the matrix evaluated alone on a fresh thread and again
+\* after the other calls of its function on one thread (two orders) - same outcome.
+T_History ==
+  /\ l <= Len(Rec) /\ Ev.e = "history"
+  /\ l' = l + 1
+  /\ viols' = (IF Len(Ev.diffs) = 0 THEN viols
+                ELSE Append(viols, [prop |-> "C14", rule |-> "CallIndependentOfThreadHistory", at |-> Ev.f, prog |-> 0, line |-> l,
+                                    what |-> Ev.diffs[1]]))
+  /\ cnt' = [Bump(cnt, "events") EXCEPT !.C14 = @ + Ev.calls]
+  /\ mode' = "idle" /\ k' = <<>>
+  /\ UNCHANGED <<vars, prog, run, divs, flags, vtag>>
+
+\* a whole history job lost (its worker hung or died - that is C05 / C04 material, judged there)
+T_LostJob ==
+  /\ l <= Len(Rec) /\ Ev.e = "call"
+  /\ l' = l + 1
+  /\ cnt' = Bump(cnt, "events")
+  /\ mode' = "idle" /\ k' = <<>>
+  /\ UNCHANGED <<vars, prog, run, viols, divs, flags, vtag>>
+
 TraceInit ==
   /\ l = 1 /\ k = <<>> /\ vars = <<>> /\ prog = [id |-> 0] /\ run = [probe |-> FALSE]
   /\ mode = "idle" /\ viols = <<>> /\ divs = <<>>
   /\ cnt = [c \in CntNames |-> 0] /\ flags = {} /\ vtag = <<>>
 
-TraceNext == T_Prog \/ T_Start \/ T_Skip \/ T_Enter \/ T_Exit \/ T_Target \/ T_End \/ T_Reject \/ T_Panic \/ T_FaultCmp \/ T_DetCmp
+TraceNext == T_Prog \/ T_Start \/ T_Skip \/ T_Enter \/ T_Exit \/ T_Target \/ T_End \/ T_Reject \/ T_Panic \/ T_FaultCmp \/ T_DetCmp \/ T_History \/ T_LostJob
 
 TraceSpec == TraceInit /\ [][TraceNext]_tvars
 
